@@ -516,7 +516,6 @@ func settled(plans []*connPlan, mu *sync.Mutex, acc *[]*accepted, needAccept boo
 var _ = json.Marshal
 var _ layer4.Handler
 
-
 func replay(c *fw.Ctx, raw json.RawMessage) {
 	var w struct {
 		Run int `json:"run"`
